@@ -56,7 +56,11 @@ Definition binop_result (op : binop) (c1 c2 : nat) (st2 : state) : res * state :
     match op, get_bool st2 c1, get_bool st2 c2 with
     | Eq, Some b1, Some b2 => fresh st2 (CBool (Bool.eqb b1 b2))
     | Ne, Some b1, Some b2 => fresh st2 (CBool (negb (Bool.eqb b1 b2)))
-    | _, _, _ => (RStuck, st2)
+    | _, _, _ =>
+      match nil_cmp op (get_cell st2 c1) (get_cell st2 c2) with
+      | Some b => fresh st2 (CBool b)
+      | None => (RStuck, st2)
+      end
     end
   end.
 
@@ -81,6 +85,19 @@ Definition field_result (st1 : state) (ca : nat) (fld : nat) : res * state :=
     | Some flds => match nth_error flds fld with Some c => (ROk c, st1) | None => (RStuck, st1) end
     | None => (RStuck, st1) end
   | _ => (RStuck, st1) end.
+
+(* the environment and the store after binding a run of function items *)
+Definition run_env (fds : list fdef) (e : env) (st : state) : env :=
+  func_env fds (length (cells st)) e.
+Definition run_state (fds : list fdef) (e : env) (st : state) : state :=
+  add_cells st (map (fun f => CFun f (run_env fds e st)) fds).
+
+Lemma run_rest_id : forall l, run_funcs l = [] -> run_rest l = l.
+Proof. destruct l as [|[] l]; simpl; intros; auto; discriminate. Qed.
+Lemma run_funcs_rest : forall l, run_funcs (run_rest l) = [].
+Proof. induction l as [|[] l IH]; simpl; auto. Qed.
+Lemma run_split : forall l, l = map IFunc (run_funcs l) ++ run_rest l.
+Proof. induction l as [|[] l IH]; simpl; auto. now rewrite <- IH. Qed.
 
 Section Eqs.
 Variable genv : env.
@@ -285,11 +302,20 @@ Lemma eval_items_IVar : forall k e st x a t last, eval_items genv (S k) e st (IV
   | (ROk c, st1) => eval_items genv k ((x, c) :: e) st1 t (Some c)
   | r => r end.
 Proof. reflexivity. Qed.
+(* a maximal run of adjacent function items *)
 Lemma eval_items_IFunc : forall k e st fd t last, eval_items genv (S k) e st (IFunc fd :: t) last =
-  let (c, st1) := alloc st (CInt 0) in
-  let e' := (fd_name fd, c) :: e in
-  eval_items genv k e' (set_cell st1 c (CFun fd e')) t (Some c).
+  eval_items genv k (run_env (fd :: run_funcs t) e st) (run_state (fd :: run_funcs t) e st)
+             (run_rest t) (Some (length (run_funcs t) + length (cells st))%nat).
 Proof. reflexivity. Qed.
+(* a function item that is not followed by another one *)
+Lemma eval_items_IFunc1 : forall k e st fd t last, run_funcs t = [] ->
+  eval_items genv (S k) e st (IFunc fd :: t) last =
+  let c := length (cells st) in
+  let e' := (fd_name fd, c) :: e in
+  eval_items genv k e' (add_cells st [CFun fd e']) t (Some c).
+Proof.
+  intros k e st fd t last H. rewrite eval_items_IFunc, (run_rest_id t H), H. reflexivity.
+Qed.
 Lemma eval_items_IExpr : forall k e st a t last, eval_items genv (S k) e st (IExpr a :: t) last =
   match eval genv k e st a with
   | (ROk c, st1) => eval_items genv k e st1 t (Some c)
@@ -341,3 +367,53 @@ Proof. induction l; destruct i; simpl; intros; auto. now rewrite IHl. Qed.
 
 Lemma binop_cases : forall op, op = And \/ op = Or \/ (op <> And /\ op <> Or).
 Proof. destruct op; auto; right; right; split; discriminate. Qed.
+
+(* ---- runs of function items --------------------------------------------------------- *)
+
+Lemma func_env_app : forall fds c e, exists p, func_env fds c e = p ++ e /\ length p = length fds.
+Proof.
+  induction fds as [|fd t IH]; intros c e; simpl.
+  - exists []. auto.
+  - destruct (IH (S c) ((fd_name fd, c) :: e)) as [p [E L]].
+    exists (p ++ [(fd_name fd, c)]). rewrite E, <- app_assoc, app_length. simpl. split; auto. lia.
+Qed.
+
+(* a name that no function of the run has keeps its meaning *)
+Lemma func_env_other : forall fds c e x, (forall f, In f fds -> fd_name f <> x) ->
+  lookup x (func_env fds c e) = lookup x e.
+Proof.
+  induction fds as [|fd t IH]; intros c e x H; simpl; auto.
+  rewrite IH by (intros f Hf; apply H; simpl; auto). simpl.
+  destruct (N.eqb_spec x (fd_name fd)) as [->|]; auto.
+  exfalso. apply (H fd); simpl; auto.
+Qed.
+
+(* the i-th function of the run is bound to the i-th new cell (unless a later one has its name) *)
+Lemma func_env_nth : forall fds c e i f, nth_error fds i = Some f ->
+  (forall j g, (i < j)%nat -> nth_error fds j = Some g -> fd_name g <> fd_name f) ->
+  lookup (fd_name f) (func_env fds c e) = Some (c + i)%nat.
+Proof.
+  induction fds as [|fd t IH]; intros c e i f Hn Hl; destruct i as [|i]; simpl in Hn; try discriminate.
+  - inversion Hn; subst. simpl. rewrite func_env_other.
+    + simpl. rewrite N.eqb_refl. f_equal. lia.
+    + intros g Hg. destruct (In_nth_error _ _ Hg) as [j Hj]. apply (Hl (S j) g); [lia|exact Hj].
+  - simpl. rewrite (IH (S c) _ i f Hn).
+    + f_equal. lia.
+    + intros j g Hij Hj. apply (Hl (S j) g); [lia|exact Hj].
+Qed.
+
+Lemma run_state_cells : forall fds e st,
+  cells (run_state fds e st) = cells st ++ map (fun f => CFun f (run_env fds e st)) fds.
+Proof. reflexivity. Qed.
+
+Lemma run_state_get_new : forall fds e st i f, nth_error fds i = Some f ->
+  get_cell (run_state fds e st) (length (cells st) + i) = Some (CFun f (run_env fds e st)).
+Proof.
+  intros. unfold get_cell. rewrite run_state_cells, nth_error_app2 by lia.
+  replace (length (cells st) + i - length (cells st))%nat with i by lia.
+  rewrite nth_error_map, H. reflexivity.
+Qed.
+
+Lemma run_state_get_old : forall fds e st c, (c < length (cells st))%nat ->
+  get_cell (run_state fds e st) c = get_cell st c.
+Proof. intros. unfold get_cell. rewrite run_state_cells, nth_error_app1 by lia. reflexivity. Qed.
